@@ -165,6 +165,119 @@ fn sack_cases(run: &mut Run, rng: &mut Rng, thorough: bool) {
     run.count_n("sack_random", n);
 }
 
+// histories of SACKs through the real `handle_sack` (hook: verif_handle_sack on a loaded sender)
+
+fn rec_text_n(r: &hook::VRecord) -> String {
+    let mut r = r.clone();
+    if r.sent_ms >= 50_000 { r.sent_ms = 0; }
+    r.fast_retransmit_ms = r.fast_retransmit_ms.map(|v| if v >= 50_000 { 0 } else { v });
+    rec_text(&r)
+}
+
+pub struct HsackCase { pub pc: u32, pub last_sig: u64, pub maxrtx: u32, pub held: Vec<u32>, pub q: Vec<hook::VRecord>, pub sacks: Vec<(u32, u32, Vec<(u16, u16)>)> }
+
+pub fn hsack_text(c: &HsackCase) -> String {
+    format!("{} {} {} {} {} / {}", c.pc, c.last_sig, c.maxrtx, show_u32s(&c.held),
+        if c.q.is_empty() { "-".to_string() } else { c.q.iter().map(rec_text).collect::<Vec<_>>().join(" ") },
+        c.sacks.iter().map(|(c, a, g)| format!("{c};{a};{}", show_gaps(g))).collect::<Vec<_>>().join(" "))
+}
+
+pub fn hsack_parse(toks: &[&str]) -> Option<HsackCase> {
+    if toks.len() < 6 { return None; }
+    let held: Vec<u32> = if toks[3] == "-" { vec![] } else { toks[3].split(',').filter_map(|t| t.parse().ok()).collect() };
+    let slash = toks.iter().position(|t| *t == "/")?;
+    let q: Vec<hook::VRecord> = toks[4..slash].iter().filter(|t| **t != "-").filter_map(|t| { let f: Vec<&str> = t.split(',').collect(); if f.len() != 11 { return None; }
+        let mut r = mk_rec(f[0].parse().ok()?, f[1].parse().ok()?); r.sent_ms = f[2].parse().ok()?; r.transmit_count = f[3].parse().ok()?; r.missing_reports = f[4].parse().ok()?;
+        r.abandoned = f[5] == "1"; r.fast_retransmit = f[6] == "1"; r.needs_retransmit = f[7] == "1"; r.fast_retransmit_ms = f[8].parse().ok(); r.in_flight = f[9] == "1"; r.acked = f[10] == "1"; Some(r) }).collect();
+    let sacks = toks[slash + 1..].iter().filter_map(|t| { let f: Vec<&str> = t.split(';').collect(); if f.len() != 3 { return None; }
+        let gaps: Vec<(u16, u16)> = if f[2] == "-" { vec![] } else { f[2].split(',').filter_map(|g| { let (a, b) = g.split_once('-')?; Some((a.parse().ok()?, b.parse().ok()?)) }).collect() };
+        Some((f[0].parse().ok()?, f[1].parse().ok()?, gaps)) }).collect();
+    Some(HsackCase { pc: toks[0].parse().ok()?, last_sig: toks[1].parse().ok()?, maxrtx: toks[2].parse().ok()?, held, q, sacks })
+}
+
+/// run one history on the real sender; oracle: a record leaves the queue or loses its payload only if
+/// the receiver (whose final holdings are `held`) has that TSN
+pub async fn emit_hsack(run: &mut Run, ep: &mut Endpoint, c: &HsackCase, verbose: bool) {
+    let input = hsack_text(c);
+    let flight: usize = c.q.iter().filter(|r| r.in_flight).map(|r| r.len).sum();
+    let next = c.q.iter().map(|r| r.tsn).max_by_key(|t| t.wrapping_sub(c.pc)).map(|t| t.wrapping_add(1)).unwrap_or(c.pc.wrapping_add(1));
+    ep.sctp.verif_load_sender(&c.q, &[], 100_000, flight, 100_000, next, false);
+    ep.sctp.verif_set_sack_history(c.pc, c.last_sig);
+    while ep.out_rx.try_recv().is_ok() {}
+    let mut outs = vec![];
+    let mut freed_wrong: Vec<u32> = vec![];
+    for (cum, arwnd, gaps) in &c.sacks {
+        let mut v = Vec::with_capacity(12 + 4 * gaps.len());
+        v.extend_from_slice(&cum.to_be_bytes()); v.extend_from_slice(&arwnd.to_be_bytes());
+        v.extend_from_slice(&(gaps.len() as u16).to_be_bytes()); v.extend_from_slice(&0u16.to_be_bytes());
+        for (a, b) in gaps { v.extend_from_slice(&a.to_be_bytes()); v.extend_from_slice(&b.to_be_bytes()); }
+        let _ = ep.sctp.verif_handle_sack(Bytes::from(v)).await;
+        // retransmitted chunks leave as the (all-zero) loaded payloads: count their bytes
+        let mut rexb = 0usize;
+        while let Ok(p) = ep.out_rx.try_recv() { rexb += p.len().saturating_sub(12); }
+        let after = ep.sctp.verif_sent_queue();
+        let (rw, pc) = ep.sctp.verif_sack_view();
+        let fl = ep.sctp.verif_snapshot().flight_size;
+        for r in &c.q {
+            let freed = match after.iter().find(|x| x.tsn == r.tsn) { None => true, Some(x) => x.acked && !r.acked };
+            if freed && !c.held.contains(&r.tsn) && !freed_wrong.contains(&r.tsn) { freed_wrong.push(r.tsn); }
+        }
+        outs.push(format!("rw={rw} pc={pc} fl={fl} rexb={rexb} q={}", after.iter().map(rec_text_n).collect::<Vec<_>>().join(" ")));
+    }
+    let out = outs.join(" | ");
+    if verbose { println!("impl: {out}"); }
+    for t in &freed_wrong {
+        run.fail("sack:record-freed-but-receiver-does-not-hold-it", &format!("hsack {input}"), &format!("TSN {t} left the sent queue or lost its payload; the receiver holds {}", show_u32s(&c.held)));
+        if verbose { println!("ORACLE-FAIL sack:record-freed-but-receiver-does-not-hold-it TSN {t}"); }
+    }
+    run.case("hsack", &input, &out, true);
+}
+
+fn hsack_cases(run: &mut Run, rng: &mut Rng, thorough: bool) {
+    let rt = tokio::runtime::Builder::new_current_thread().enable_all().build().unwrap();
+    rt.block_on(async {
+        let mut ep = Endpoint::new(57_900, 57_901, true, &EpCfg::default(), &[]).await;
+        let n = if thorough { 12_000 } else { 2_500 };
+        let (mut stale_gap, mut reordered) = (0u64, 0u64);
+        for k in 0..n {
+            let r0 = rng.next() as u32;
+            let base = *rng.pick(&[100u32, 0xFFFF_FFFA, 0x7FFF_FFFC, 0, r0]);
+            let nrec = rng.range(3, 10) as usize;
+            let q: Vec<hook::VRecord> = (0..nrec).map(|i| mk_rec(base.wrapping_add(i as u32), 100 + 4 * i)).collect();
+            // the receiver: which chunks arrive, in which order; a SACK after every arrival
+            let mut order: Vec<usize> = (0..nrec).filter(|i| if *i == 0 { k % 3 != 0 && rng.chance(2, 3) } else { rng.chance(3, 4) }).collect();
+            for i in (1..order.len()).rev() { let j = rng.below(i as u64 + 1) as usize; if rng.chance(1, 2) { order.swap(i, j); } }
+            let mut cum = base.wrapping_sub(1);
+            let mut held: Vec<u32> = vec![];
+            let mut sacks = vec![];
+            for i in &order {
+                held.push(base.wrapping_add(*i as u32));
+                while held.contains(&cum.wrapping_add(1)) { cum = cum.wrapping_add(1); }
+                let above: Vec<u32> = held.iter().copied().filter(|t| (t.wrapping_sub(cum) as i32) > 0).collect();
+                sacks.push((cum, 100_000 - 100 * above.len() as u32, hook::gap_blocks(&above, cum)));
+            }
+            // delivery to the sender: in order, or with SACKs overtaken by later ones, or duplicated late
+            let mut del = sacks.clone();
+            match k % 4 {
+                0 => {}
+                1 => { for _ in 0..rng.range(1, 3) { if del.len() >= 2 { let i = rng.below(del.len() as u64 - 1) as usize; let j = rng.range(i as u64 + 1, del.len() as u64 - 1) as usize; let s = del.remove(i); del.insert(j, s); } } }
+                2 => { if del.len() >= 2 { let i = rng.below(del.len() as u64 - 1) as usize; let s = del[i].clone(); del.push(s); } }
+                _ => { for i in (1..del.len()).rev() { let j = rng.below(i as u64 + 1) as usize; del.swap(i, j); } }
+            }
+            let mut best: Option<u32> = None;
+            for (c, _, g) in &del { if let Some(b) = best { if (b.wrapping_sub(*c) as i32) > 0 { reordered += 1; if !g.is_empty() { stale_gap += 1; } } }
+                if best.map_or(true, |b| (c.wrapping_sub(b) as i32) > 0) { best = Some(*c); } }
+            let mut q = q; q.sort_by_key(|r| r.tsn); // the map's (numeric) key order
+            let c = HsackCase { pc: base.wrapping_sub(1), last_sig: 0, maxrtx: 8, held, q, sacks: del };
+            emit_hsack(run, &mut ep, &c, false).await;
+        }
+        run.count_n("hsack_histories", n as u64);
+        run.count_n("hsack_overtaken_sacks", reordered);
+        run.count_n("hsack_overtaken_sacks_with_gap_blocks", stale_gap);
+        ep.shutdown();
+    });
+}
+
 fn istream_cases(run: &mut Run, rng: &mut Rng, thorough: bool) {
     let n = if thorough { 20_000 } else { 3_000 };
     for k in 0..n {
@@ -503,6 +616,15 @@ fn link_cases(args: &Args, rng: &mut Rng) -> Vec<LinkCase> {
         v.push(LinkCase { name: format!("directed-{f}"), case: mk_case(&wl[4], faults_parse(f), None) });
         v.push(LinkCase { name: format!("directed-{f}-w"), case: mk_case(&wl[6], faults_parse(f), Some(0xFFFF_FFFD)) });
     }
+    // a SACK with gap blocks overtaken by later SACKs × a second DATA loss further on (a sender that re-bases
+    // the stale blocks on a newer cumulative TSN would mark chunks the receiver never got)
+    let full = args.tier_thorough || std::env::var("VERIF_FULLGRID").is_ok();
+    for d1 in [1u32, 2, 3] { for k in 2u32..6 { for hold in [1u32, 2, 3] { for d2 in 20u32..60 {
+        if !full && !(d1 == 1 && k == 2 && d2 <= 40) { continue; }
+        let f = format!("A.TSN.{d1}.dropn1+B.SACK.{k}.delay{hold}+A.TSN.{d2}.dropn1");
+        let tsn = if (k + d2) % 2 == 0 { None } else { Some(0xFFFF_FFFBu32) };
+        v.push(LinkCase { name: format!("stale-gap-sack-{f}"), case: mk_case(&[70_000], faults_parse(&f), tsn) });
+    } } } }
     // thorough: every pair of faults on the four setup chunks
     if args.tier_thorough {
         let setup: Vec<(usize, u8)> = vec![(0, 1), (1, 2), (0, 10), (1, 11)];
@@ -565,6 +687,13 @@ pub fn run(args: &Args) {
                 }
                 return;
             }
+            Some("hsack") => {
+                let Some(c) = hsack_parse(&toks[1..]) else { println!("cannot parse case: {case}"); return; };
+                let mut run = Run::new("c01", &format!("{}/replay", args.out));
+                let rt = tokio::runtime::Builder::new_current_thread().enable_all().build().unwrap();
+                rt.block_on(async { let mut ep = Endpoint::new(57_900, 57_901, true, &EpCfg::default(), &[]).await; emit_hsack(&mut run, &mut ep, &c, true).await; ep.shutdown(); });
+                return;
+            }
             Some("sack") if toks.len() >= 6 => {
                 let gaps: Vec<(u16, u16)> = if toks[2] == "-" { vec![] } else { toks[2].split(',').filter_map(|g| { let (a, b) = g.split_once('-')?; Some((a.parse().ok()?, b.parse().ok()?)) }).collect() };
                 let recs: Vec<hook::VRecord> = toks[6..].iter().filter_map(|t| { let f: Vec<&str> = t.split(',').collect(); if f.len() != 11 { return None; }
@@ -594,6 +723,7 @@ pub fn run(args: &Args) {
     gap_cases(&mut run, &mut rng, args.tier_thorough);
     sack_cases(&mut run, &mut rng, args.tier_thorough);
     istream_cases(&mut run, &mut rng, args.tier_thorough);
+    hsack_cases(&mut run, &mut rng, args.tier_thorough);
     frag_cases(&mut run, &rt, &mut rng, args.tier_thorough);
     drop(rt);
 
